@@ -59,7 +59,7 @@ Proof. reflexivity. Qed.
 Lemma wf_fold ops : forall cl, wf cl -> wf (fold_left def_step ops cl).
 Proof.
   induction ops as [|o r IH]; intros cl W; cbn; [exact W|].
-  apply IH. destruct o; cbn; [apply wf_define; exact W | exact W | exact W].
+  apply IH. destruct o; cbn; [apply wf_define; exact W | exact W | exact W | exact W].
 Qed.
 
 Lemma wf_defs ops : wf (defs ops).
@@ -379,7 +379,7 @@ Section Dispatch.
       pose proof (IH top codec _ sj x1 inp present (eq_ind_r wf W E1) RS1 K') as H. rewrite E1 in H. exact H. }
     assert (I: inv (classes x) x) by (split; [reflexivity | exact RS]).
     destruct (s_field s).
-    - destruct (assoc (s_fid s) inp) as [t|]; [|exact I]. apply field_body_inv; assumption.
+    - destruct (assoc (s_fid s) inp) as [[t|]|]; [|exact I|exact I]. apply field_body_inv; assumption.
     - apply loop_body_inv; assumption.
   Qed.
 
@@ -403,12 +403,13 @@ Section Dispatch.
   Lemma reg_sound_step x o : wf (classes x) -> reg_sound sites x ->
     classes (fst (step acc sites x o)) = def_step (classes x) o /\ reg_sound sites (fst (step acc sites x o)).
   Proof.
-    intros W RS. destruct o as [ps tg tu rq ke | i inp present | l]; cbn [step].
+    intros W RS. destruct o as [ps tg tu rq ke | i inp present | l | i]; cbn [step].
     - split; [reflexivity|]. intros k s t c K Hin. cbn in *. apply carries_mono. eapply RS; eassumption.
     - pose proof (decode1_inv x i inp present W RS) as H.
       destruct (decode1 acc sites x i inp present) as [x' o]. exact H.
     - pose proof (decode_seq_inv l x [] W RS) as H.
       destruct (decode_seq acc sites x l []) as [x' o]. exact H.
+    - split; [reflexivity | exact RS].
   Qed.
 
   Lemma fold_inv ops : forall x, wf (classes x) -> reg_sound sites x ->
@@ -418,7 +419,7 @@ Section Dispatch.
     induction ops as [|o r IH]; intros x W RS; cbn [fold_left]; [split; [reflexivity | exact RS]|].
     destruct (reg_sound_step x o W RS) as [E1 S1].
     assert (W1: wf (classes (fst (step acc sites x o)))).
-    { rewrite E1. destruct o; cbn; [apply wf_define; exact W | exact W | exact W]. }
+    { rewrite E1. destruct o; cbn; [apply wf_define; exact W | exact W | exact W | exact W]. }
     destruct (IH _ W1 S1) as [E2 S2]. split; [rewrite E2, E1; reflexivity | exact S2].
   Qed.
 
@@ -456,7 +457,7 @@ Section Dispatch.
   Proof.
     intros U C NK. unfold leaf, field_spec.
     destruct (acc (nth c cl dummy_cls) present) eqn:V; [| |congruence].
-    - split; [|split; [|split; [|split; [|split; [|split]]]]].
+    - split; [|split; [|split; [|split; [|split; [|split; [|split]]]]]].
       + intros c'. split.
         * intros E. injection E as <-. split; [exact C | exact V].
         * intros [C' _]. f_equal. apply U; assumption.
@@ -466,7 +467,8 @@ Section Dispatch.
       + discriminate.
       + intros c' E. discriminate.
       + intros cs E. discriminate.
-    - split; [|split; [|split; [|split; [|split; [|split]]]]].
+      + discriminate.
+    - split; [|split; [|split; [|split; [|split; [|split; [|split]]]]]].
       + intros c'. split; [discriminate|]. intros [C' V']. rewrite (U _ _ C' C) in V'. congruence.
       + intros c'. split.
         * intros E. injection E as <-. split; [exact C | exact V].
@@ -476,11 +478,12 @@ Section Dispatch.
       + discriminate.
       + intros c' E. discriminate.
       + intros cs E. discriminate.
+      + discriminate.
   Qed.
 
   Lemma field_spec_none cl s t present : (forall c, ~ carries cl s c t) -> field_spec acc cl s t present ONotFound.
   Proof.
-    intros NO. unfold field_spec. split; [|split; [|split; [|split; [|split; [|split]]]]].
+    intros NO. unfold field_spec. split; [|split; [|split; [|split; [|split; [|split; [|split]]]]]].
     - intros c. split; [discriminate|]. intros [C _]. exfalso. exact (NO c C).
     - intros c. split; [discriminate|]. intros [C _]. exfalso. exact (NO c C).
     - split; [intros _; exact NO | reflexivity].
@@ -488,6 +491,7 @@ Section Dispatch.
     - discriminate.
     - intros c E. discriminate.
     - intros cs E. discriminate.
+    - discriminate.
   Qed.
 
   (* a class without class-level discriminator is a leaf *)
@@ -536,7 +540,7 @@ Section Dispatch.
   Lemma decode1_field x i s inp t present :
     wf (classes x) -> reg_sound sites x ->
     nth_error sites i = Some s -> s_field s = true -> site_ok s (length (classes x)) = true ->
-    assoc (s_fid s) inp = Some t ->
+    assoc (s_fid s) inp = Some (Hashable t) ->
     tag_unique (classes x) s t -> plain_carriers (classes x) s t -> no_keyerror (classes x) s t present ->
     field_spec acc (classes x) s t present (snd (decode1 acc sites x i inp present)).
   Proof.
@@ -547,7 +551,7 @@ Section Dispatch.
 
   Theorem decode_field_correct pre i s inp t present :
     nth_error sites i = Some s -> s_field s = true -> site_ok s (length (defs pre)) = true ->
-    assoc (s_fid s) inp = Some t ->
+    assoc (s_fid s) inp = Some (Hashable t) ->
     tag_unique (defs pre) s t -> plain_carriers (defs pre) s t -> no_keyerror (defs pre) s t present ->
     exists o, snd (step acc sites (final acc sites pre) (Decode i inp present)) = Some o
               /\ field_spec acc (defs pre) s t present o.
@@ -560,10 +564,10 @@ Section Dispatch.
   Qed.
 
   (* a holder with several discriminated fields: every field is decided by its own site *)
-  Definition entry_ok (cl: list cls) (e: nat * keys * list nat) : Prop :=
+  Definition entry_ok (cl: list cls) (e: nat * inkeys * list nat) : Prop :=
     let '(i, inp, present) := e in
     exists s, nth_error sites i = Some s /\ s_field s = true /\ site_ok s (length cl) = true
-              /\ forall t, assoc (s_fid s) inp = Some t ->
+              /\ forall t, assoc (s_fid s) inp = Some (Hashable t) ->
                    tag_unique cl s t /\ plain_carriers cl s t /\ no_keyerror cl s t present.
 
   Lemma decode_seq_correct : forall l x done, wf (classes x) -> reg_sound sites x ->
@@ -573,7 +577,7 @@ Section Dispatch.
     induction l as [|[[i inp] present] l IH]; intros x done W RS H; cbn [decode_seq]; [apply seq_nil|].
     destruct (H _ (or_introl eq_refl)) as [s [Hs [Hf [OK HT]]]].
     pose proof (decode1_inv x i inp present W RS) as [E1 RS1].
-    destruct (assoc (s_fid s) inp) as [t|] eqn:A.
+    destruct (assoc (s_fid s) inp) as [[t|]|] eqn:A.
     - destruct (HT t eq_refl) as [U [P NK]].
       pose proof (decode1_field x i s inp t present W RS Hs Hf OK A U P NK) as F.
       destruct (decode1 acc sites x i inp present) as [x1 o]. cbn [fst snd] in *.
@@ -581,6 +585,9 @@ Section Dispatch.
       eapply seq_ok; [exact Hs | exact A | exact F|].
       pose proof (IH x1 (c :: done) (eq_ind_r wf W E1) RS1) as G. rewrite E1 in G. apply G.
       intros e He. apply H. right. exact He.
+    - assert (M: decode1 acc sites x i inp present = (x, ONotFound)).
+      { unfold decode1. rewrite Hs. cbn [dispatcher]. rewrite OK. cbn [negb]. rewrite Hf. rewrite A. reflexivity. }
+      rewrite M. cbn [snd]. eapply seq_unhashable; eassumption.
     - assert (M: decode1 acc sites x i inp present = (x, OMissing)).
       { unfold decode1. rewrite Hs. cbn [dispatcher]. rewrite OK. cbn [negb]. rewrite Hf. rewrite A. reflexivity. }
       rewrite M. cbn [snd]. eapply seq_missing; eassumption.
@@ -606,8 +613,27 @@ Section Dispatch.
     cbn [negb]. rewrite Hf. rewrite HT. reflexivity.
   Qed.
 
+  (* an unhashable value under the key cannot be the tag of any class: SuitableVariantNotFound, no lookup, state untouched *)
+  Theorem unhashable_tag pre i s inp present :
+    nth_error sites i = Some s -> s_field s = true -> site_ok s (length (defs pre)) = true ->
+    assoc (s_fid s) inp = Some Unhashable ->
+    step acc sites (final acc sites pre) (Decode i inp present) = (final acc sites pre, Some ONotFound).
+  Proof.
+    intros Hs Hf OK HT. cbn [step]. unfold decode1. rewrite Hs. cbn [dispatcher]. rewrite final_classes. rewrite OK.
+    cbn [negb]. rewrite Hf. rewrite HT. reflexivity.
+  Qed.
+
+  (* an input that is not a mapping: ValueError from a field dispatcher, nobody accepts it in no-field mode; state untouched *)
+  Theorem non_mapping pre i s :
+    nth_error sites i = Some s -> site_ok s (length (defs pre)) = true ->
+    step acc sites (final acc sites pre) (DecodeBad i)
+    = (final acc sites pre, Some (if s_field s then ONotDict else ONotFound)).
+  Proof.
+    intros Hs OK. cbn [step]. unfold decode_bad. rewrite Hs. rewrite final_classes. rewrite OK. reflexivity.
+  Qed.
+
   (* the keys of all field dispatchers are present in the input (whatever their values) *)
-  Definition keys_present (inp: keys) : Prop :=
+  Definition keys_present (inp: inkeys) : Prop :=
     forall j sj, nth_error sites j = Some sj -> s_field sj = true -> assoc (s_fid sj) inp <> None.
 
   Lemma refill_retry_nm enter top codec k s t x0 :
@@ -638,7 +664,7 @@ Section Dispatch.
       - apply IH. intros F. exact (KP j sj (config_site_nth _ _ _ _ C) F).
       - cbn [snd]. unfold leaf. destruct (acc _ _); discriminate. }
     destruct (s_field s) eqn:F; [|apply loop_body_nm].
-    destruct (assoc (s_fid s) inp) as [t|] eqn:A; [|exfalso; exact (OWN eq_refl eq_refl)].
+    destruct (assoc (s_fid s) inp) as [[t|]|] eqn:A; [|discriminate|exfalso; exact (OWN eq_refl eq_refl)].
     unfold field_body. destruct (reg_get t (get_reg k (regs x))) as [c|]; [|apply refill_retry_nm; exact EN].
     pose proof (EN x c) as H. destruct (enter x c) as [x1 o]. cbn [snd] in *.
     destruct o; try exact H; try discriminate. apply refill_retry_nm; exact EN.
@@ -661,8 +687,8 @@ End Dispatch.
 Lemma field_spec_functional acc cl s t present o1 o2 :
   field_spec acc cl s t present o1 -> field_spec acc cl s t present o2 -> o1 = o2.
 Proof.
-  intros [I1 [R1 [N1 [M1 [B1 [K1 Y1]]]]]] [I2 [R2 [N2 [M2 [B2 [K2 Y2]]]]]].
-  destruct o1 as [c| | | |c|c|cs].
+  intros [I1 [R1 [N1 [M1 [B1 [K1 [Y1 D1]]]]]]] [I2 [R2 [N2 [M2 [B2 [K2 [Y2 D2]]]]]]].
+  destruct o1 as [c| | | |c|c|cs|].
   - symmetry. apply I2. apply I1. reflexivity.
   - exfalso. apply M1. reflexivity.
   - symmetry. apply N2. apply N1. reflexivity.
@@ -670,12 +696,13 @@ Proof.
   - symmetry. apply R2. apply R1. reflexivity.
   - exfalso. exact (K1 c eq_refl).
   - exfalso. exact (Y1 cs eq_refl).
+  - exfalso. apply D1. reflexivity.
 Qed.
 
 (* same classes, same site settings, same tag, same other fields => same answer, whatever was decoded or created before *)
 Theorem history_independent acc sites1 sites2 pre1 pre2 i1 i2 s inp1 inp2 t present :
   nth_error sites1 i1 = Some s -> nth_error sites2 i2 = Some s -> s_field s = true ->
-  assoc (s_fid s) inp1 = Some t -> assoc (s_fid s) inp2 = Some t ->
+  assoc (s_fid s) inp1 = Some (Hashable t) -> assoc (s_fid s) inp2 = Some (Hashable t) ->
   defs pre1 = defs pre2 -> site_ok s (length (defs pre1)) = true -> tag_unique (defs pre1) s t ->
   plain_carriers sites1 (defs pre1) s t -> plain_carriers sites2 (defs pre1) s t ->
   no_keyerror acc (defs pre1) s t present ->
